@@ -57,7 +57,7 @@ RULE = ("W: target T in {DHTCommunity, DHTDiscoveryCommunity} + 4 requester endp
         "0-2 short directed scenarios (own-key refresh, table growth between two stores at a far key, version race, "
         "token carried across rotations); the recorded case is the explicit op list (greedily minimised on failure): "
         "find(identity, key, force_nodes); store(identity, token class in {fresh, previous epoch, older, other key, "
-        "other key at same address, same key at other address, random}, key in {T's node id, its complement, "
+        "other key at same address, same key at other address, random, issued to the same requester by another node}, key in {T's node id, its complement, "
         "sha1(pk of signer 0), constant}, 0..10 values from {unsigned of length 0/1/5/169(=170 bytes)/170(=171), "
         "signed by k0..k2 with version in {0,1,2,3,2^32-1}, signed by the real serialize_value (version = clock), "
         "signed with 24 data bytes (171), forged: flipped data / bumped version / foreign pk / broken signature / "
@@ -97,7 +97,7 @@ MSG_STORE_REQ, MSG_STORE_RESP, MSG_FIND_REQ, MSG_FIND_RESP, MSG_STOREPEER_REQ, M
 HOMES = [(0, 0), (1, 1), (2, 2), (0, 3)]          # (key index, address index) pairs that are real endpoints
 ADVANCES = [0.7, 31.3, 299.3, 301.1, 601.7, 899.9, 901.3, 1801.1, 3599.3, 3601.3, 7203.1]
 VERSIONS = [0, 1, 2, 3, 2 ** 32 - 1]
-TOKEN_CLASSES = ["fresh", "prev", "old", "otherkey", "otherkey_sameaddr", "otheraddr", "random"]
+TOKEN_CLASSES = ["fresh", "prev", "old", "otherkey", "otherkey_sameaddr", "otheraddr", "random", "othernode"]
 
 
 # ======================================================================================================
@@ -490,6 +490,10 @@ class WriteRun:
 
     def pick_token(self, k: int, a: int, tcls: str, idx: int) -> bytes:
         cur = self.epoch
+        if tcls == "othernode":
+            # what ANOTHER DHT node of the same process hands to this very requester (same key, same address) right now
+            other = [self.O, *self.R][idx % 5].overlay
+            return other.generate_token(self.DHTNode(signer_pk(k), self.V4(*self.addr[a])))
         pool = {
             "fresh": [r for r in self.issued if (r["k"], r["a"]) == (k, a) and r["epoch"] == cur],
             "prev": [r for r in self.issued if (r["k"], r["a"]) == (k, a) and r["epoch"] == cur - 1],
@@ -1317,7 +1321,7 @@ def expand_write(seed: int, n_ops: int, variant: str, warm: bool, grow: int) -> 
 
     def tcls() -> str:
         return _pick(rng, [(45, "fresh"), (15, "prev"), (8, "old"), (8, "otherkey"), (8, "otherkey_sameaddr"),
-                           (8, "otheraddr"), (8, "random")])
+                           (8, "otheraddr"), (8, "random"), (8, "othernode")])
 
     def key() -> int:
         return focus_key if rng.random() < 0.6 else rng.randrange(4)
